@@ -529,15 +529,22 @@ func RunSuper(o SuperOpts, out io.Writer) int {
 	if jobs < 1 {
 		jobs = 1
 	}
-	var wg sync.WaitGroup
-	for k := 0; k < jobs; k++ {
-		wg.Add(1)
-		go func(k int) {
-			defer wg.Done()
-			s.runShard(k, jobs)
-		}(k)
+	if o.Prop.MaxJobs > 0 && jobs > o.Prop.MaxJobs {
+		jobs = o.Prop.MaxJobs
 	}
-	wg.Wait()
+	var wg sync.WaitGroup
+	if o.Prop.UnitPerProcess {
+		s.runUnitsInOwnProcesses(jobs)
+	} else {
+		for k := 0; k < jobs; k++ {
+			wg.Add(1)
+			go func(k int) {
+				defer wg.Done()
+				s.runShard(k, jobs)
+			}(k)
+		}
+		wg.Wait()
+	}
 	if o.Prop.Race {
 		s.collectRaces()
 	}
@@ -877,4 +884,69 @@ func (s *Super) collectCoverage() {
 			s.Inconclusive("mechanism " + m + " was never executed by this run (coverage 0%): the monitor did not reach what it is there to watch")
 		}
 	}
+}
+
+// runUnitsInOwnProcesses enumerates the units with a listing child and then
+// runs every unit in a fresh child process of its own.
+func (s *Super) runUnitsInOwnProcesses(jobs int) {
+	args := []string{"child", s.o.Prop.ID, s.o.Tier, "--shard", "0", "--of", "1",
+		"--seed", strconv.FormatUint(s.o.Seed, 10), "--out", s.RunDir, "--tag", ".list", "--list"}
+	if code, err := s.runChild(args, "list.stderr"); err != nil || code != 0 {
+		s.Inconclusive(fmt.Sprintf("cannot enumerate units (exit %d, %v): %s", code, err, tail(filepath.Join(s.RunDir, "list.stderr"), 1500)))
+		return
+	}
+	b, err := os.ReadFile(filepath.Join(s.RunDir, "units.txt"))
+	if err != nil {
+		s.Inconclusive("cannot read unit list: " + err.Error())
+		return
+	}
+	units := strings.Split(strings.TrimSpace(string(b)), "\n")
+	ch := make(chan int, len(units))
+	for i := range units {
+		ch <- i
+	}
+	close(ch)
+	var wg sync.WaitGroup
+	for w := 0; w < jobs; w++ {
+		wg.Add(1)
+		go func() {
+			defer wg.Done()
+			for i := range ch {
+				tag := fmt.Sprintf(".u%d", i)
+				a := []string{"child", s.o.Prop.ID, s.o.Tier, "--shard", strconv.Itoa(i), "--of", "1",
+					"--seed", strconv.FormatUint(s.o.Seed, 10), "--out", s.RunDir, "--tag", tag, "--only", units[i]}
+				stderrName := fmt.Sprintf("shard-%d%s.stderr", i, tag)
+				code, err := s.runChild(a, stderrName)
+				if err != nil {
+					s.Inconclusive(fmt.Sprintf("unit %s: cannot run child: %v", units[i], err))
+					continue
+				}
+				j, jerr := readJournal(filepath.Join(s.RunDir, fmt.Sprintf("shard-%d%s.journal", i, tag)))
+				if jerr != nil {
+					s.Inconclusive(fmt.Sprintf("unit %s: no journal (exit %d): %s", units[i], code, tail(filepath.Join(s.RunDir, stderrName), 2000)))
+					continue
+				}
+				s.absorb(j)
+				s.absorbNT(filepath.Join(s.RunDir, fmt.Sprintf("nt-%d%s.bin", i, tag)))
+				if j.done || j.stopped {
+					continue
+				}
+				hasRec := false
+				for _, r := range j.recs {
+					if r.T == "budget" || r.T == "mem" {
+						hasRec = true
+					}
+				}
+				if !hasRec {
+					s.addViol(&Viol{Key: units[i] + "|crash", Unit: units[i], Seq: i, Kind: "crash",
+						Observed: fmt.Sprintf("child process died (exit %d):\n%s", code, tail(filepath.Join(s.RunDir, stderrName), 3000)),
+						Expected: "unit completes"})
+				}
+				s.mu.Lock()
+				s.unitsAb = append(s.unitsAb, units[i])
+				s.mu.Unlock()
+			}
+		}()
+	}
+	wg.Wait()
 }
